@@ -337,6 +337,16 @@ class LogSpace(Structured):
                 if getattr(self, '_defs', None) is None:
                     self._defs = Defs(self.fi.body)
                 a = expand(a, self._defs)
+            # `T if T > 0 else <fallback>`: the total is positive for every input the properties quantify over, so this IS T
+            # (a guard such as `T >= 1` is not implied by positivity and stays a conditional)
+            if isinstance(a, ast.IfExp) and isinstance(a.test, ast.Compare) and len(a.test.ops) == 1:
+                from ..srcmodel import canon_compare
+                t_ = canon_compare(a.test)
+                l_, r_, op_ = U(t_.left), U(t_.comparators[0]), type(t_.ops[0])
+                pos = (r_ in ('0', '0.0') and op_ in (ast.Gt, ast.NotEq)) or (l_ in ('0', '0.0') and op_ is ast.Lt)
+                subject = l_ if r_ in ('0', '0.0') else r_
+                if pos and subject == U(a.body) and subject.endswith('total'):
+                    a = a.body
             if isinstance(a, (ast.Name, ast.Attribute)) or isinstance(a, ast.Constant):
                 return Form({(1, ('logt', U(a)))})
             if isinstance(a, ast.Call) and isinstance(a.func, ast.Attribute) and a.func.attr == 'sum' and not a.args:
